@@ -56,6 +56,22 @@ class Importance(CellModifierInput):
                 self._particle_importances[particle] = copy.deepcopy(self._tree)
                 self._real_tree[particle] = copy.deepcopy(self._tree)
 
+    def _grab_beginning_comment(self, padding):
+        super()._grab_beginning_comment(padding)
+        # the trees that are written are copies of the parsed tree
+        if padding and not self.in_cell_block:
+            for tree in self._real_tree.values():
+                tree["start_pad"]._grab_beginning_comment(list(padding))
+                break
+
+    def _delete_trailing_comment(self):
+        super()._delete_trailing_comment()
+        if not self.in_cell_block:
+            for tree in self._particle_importances.values():
+                tree._delete_trailing_comment()
+            for tree in self._real_tree.values():
+                tree._delete_trailing_comment()
+
     def _generate_default_cell_tree(self, particle=None):
         classifier = syntax_node.ClassifierNode()
         classifier.prefix = self._generate_default_node(
@@ -117,7 +133,7 @@ class Importance(CellModifierInput):
                 ]
                 # keep original formatting external to data cleared out
                 if not self.in_cell_block:
-                    self._real_tree[particle] = self._particle_importances[particle]
+                    self._real_tree[particle] = other._real_tree[particle]
             else:
                 raise MalformedInputError(
                     other._input,
